@@ -863,3 +863,162 @@ func ruleSCOPE1(c *Ctx) {
 		c.fail("pairing/count", nil, fmt.Sprintf("expected >= 6 acquire sites (scope, loops, block tables), found %d", n))
 	}
 }
+
+// NILFIELD: AST fields that the compiler dereferences unconditionally are
+// definitely assigned (non-nil) at every node construction site in the parser.
+func ruleNILFIELD(c *Ctx) {
+	w := c.W
+	p := w.Root
+	pp := w.Parser
+	// (T, F) pairs dereferenced without a nil guard in package tengo
+	type tf struct{ T, F string }
+	required := map[tf]ast.Node{}
+	w.AllFuncDecls(p, func(fd *ast.FuncDecl) {
+		inspectWithStack(fd.Body, func(n ast.Node, stack []ast.Node) bool {
+			outer, ok := n.(*ast.SelectorExpr)
+			if !ok {
+				return true
+			}
+			inner, ok := ast.Unparen(outer.X).(*ast.SelectorExpr)
+			if !ok {
+				return true
+			}
+			f, base := FieldSel(p, inner)
+			if f == nil {
+				return true
+			}
+			if _, isPtr := f.Type().Underlying().(*types.Pointer); !isPtr {
+				return true
+			}
+			tn, pk := namedName(p.TypesInfo.Types[base].Type)
+			if pk != pp.Types {
+				return true
+			}
+			// guarded by `… .F != nil` in an enclosing if or a preceding guard?
+			guarded := false
+			for i := len(stack) - 1; i >= 0; i-- {
+				if is, ok := stack[i].(*ast.IfStmt); ok {
+					if strings.Contains(w.Src(is.Cond), "."+f.Name()+" != nil") || strings.Contains(w.Src(is.Cond), "."+f.Name()+" == nil") {
+						guarded = true
+					}
+				}
+			}
+			if !guarded {
+				required[tf{tn, f.Name()}] = outer
+			}
+			return true
+		})
+	})
+	if len(required) < 3 {
+		c.fail("nilfield/required", nil, fmt.Sprintf("expected the compiler to dereference several AST pointer fields unconditionally; found %d", len(required)))
+		return
+	}
+	n := 0
+	w.AllFuncDecls(pp, func(fd *ast.FuncDecl) {
+		inspectWithStack(fd.Body, func(nd ast.Node, stack []ast.Node) bool {
+			cl, ok := nd.(*ast.CompositeLit)
+			if !ok {
+				return true
+			}
+			tn, pk := namedName(pp.TypesInfo.Types[cl].Type)
+			if pk != pp.Types {
+				return true
+			}
+			for _, e := range cl.Elts {
+				kv, ok := e.(*ast.KeyValueExpr)
+				if !ok {
+					continue
+				}
+				fname := w.Src(kv.Key)
+				use, need := required[tf{tn, fname}]
+				if !need {
+					continue
+				}
+				n++
+				key := fmt.Sprintf("nilfield/%s/%s.%s#%d", funcName(fd), tn, fname, n)
+				id, isId := ast.Unparen(kv.Value).(*ast.Ident)
+				if !isId {
+					if isNilIdent(kv.Value) {
+						c.fail(key, kv, tn+"."+fname+" is set to nil but the compiler dereferences it unconditionally at "+w.Site(use))
+					} else {
+						c.ok(key, kv, "set from an expression that constructs or parses a node")
+					}
+					continue
+				}
+				obj := pp.TypesInfo.Uses[id]
+				// find the declaration statement of obj; if it is `var x *T` (nil), every
+				// path from there to this literal must assign it
+				var declStmt ast.Stmt
+				var declList []ast.Stmt
+				ast.Inspect(fd.Body, func(m ast.Node) bool {
+					var list []ast.Stmt
+					switch x := m.(type) {
+					case *ast.BlockStmt:
+						list = x.List
+					case *ast.CaseClause:
+						list = x.Body
+					}
+					for _, s := range list {
+						if ds, ok := s.(*ast.DeclStmt); ok {
+							if gd, ok := ds.Decl.(*ast.GenDecl); ok {
+								for _, sp := range gd.Specs {
+									if vs, ok := sp.(*ast.ValueSpec); ok && len(vs.Values) == 0 {
+										for _, nm := range vs.Names {
+											if pp.TypesInfo.Defs[nm] == obj {
+												declStmt, declList = s, list
+											}
+										}
+									}
+								}
+							}
+						}
+					}
+					return true
+				})
+				if declStmt == nil {
+					c.ok(key, kv, "variable initialised at its declaration")
+					continue
+				}
+				// statements of declList after the declaration up to the one containing the literal
+				var between []ast.Stmt
+				started, reached := false, false
+				for _, s := range declList {
+					if s == declStmt {
+						started = true
+						continue
+					}
+					if !started {
+						continue
+					}
+					if containsNode(s, func(m ast.Node) bool { return m == ast.Node(cl) }) {
+						reached = true
+						break
+					}
+					between = append(between, s)
+				}
+				if !reached {
+					c.undecided(key, kv, "node is built outside the statement list that declares "+id.Name)
+					continue
+				}
+				assigns := func(s ast.Stmt) bool {
+					as, ok := s.(*ast.AssignStmt)
+					if !ok {
+						return false
+					}
+					for _, l := range as.Lhs {
+						if lid, ok := l.(*ast.Ident); ok && pp.TypesInfo.Uses[lid] == obj {
+							return true
+						}
+					}
+					return false
+				}
+				r := pathSeq(between, assigns)
+				c.check(r == pHit, key, kv, id.Name+" is assigned on every path before the node is built", fmt.Sprintf("%s.%s is built from variable %s, which is declared nil and not assigned on every path to this literal; the compiler dereferences %s.%s unconditionally (%s): some input makes the compiler crash with a nil pointer", tn, fname, id.Name, tn, fname, w.Site(use)))
+			}
+			return true
+		})
+	})
+	if n < 3 {
+		c.fail("nilfield/count", nil, fmt.Sprintf("expected >= 3 construction sites of dereferenced fields, found %d", n))
+	}
+}
